@@ -1,4 +1,4 @@
--- Snapshot of Gen/Coerce.lean at the commit the model was written against (used by ggqldrv_pinned only)
+-- PINNED by bin/pin_tables: copy of Gen/Coerce.lean as generated from /repo at 26063a2 — regenerate, do not edit
 import Ggql.Model.Coerce
 namespace Ggql.Pinned
 open Ggql.Coerce
@@ -50,4 +50,8 @@ def coerceInTime : Table :=
 def coerceOutTime : Table :=
   { arms := [(.f64, .timeOfFloat), (.i64, .timeOfInt), (.nil, .asIs), (.str, .timeParseKeep), (.time, .asIs)],
     dflt := .failNil, formatTime := true }
+/-- `resolve`, leaf branch: on a `CoerceOut` error the response value is set to nil -/
+def leafErrNulls : Bool := true
+/-- `resolveList`: members of the typed slices ([]string, []int, …) are copied into the response without being resolved -/
+def fastSliceCopies : Bool := false
 end Ggql.Pinned
